@@ -1,6 +1,7 @@
 import NflowsModel.Core.Made
 import NflowsModel.Lemmas.Made
 import NflowsModel.Lemmas.MadeNet
+import NflowsModel.Lemmas.ARWhole
 /-!
 # C06 — MADE conditioners are strictly autoregressive for every architecture and weight
 
@@ -173,5 +174,13 @@ example : pathCount { F := 3, m := 2, d0 := seqDegrees 3 4, blocks := [.res (seq
 example : buildResBlock 3 false [2, 2, 1] = .error .runtime := by decide
 example : Net.valid { F := 3, m := 1, d0 := [2, 2, 1], blocks := [.res [1, 2, 1] [1, 2, 1]], residual := true,
                       nde := false, hasCtx := false, bn := false } = false := by decide
+
+/-- **the MADE model, used as the conditioner of the executed autoregressive transform, is autoregressive in the sense the
+    transform needs**: the parameter block of feature `i` of every batch row is unchanged by any change of the features `≥ i` of
+    any row — for every valid net, all weights, any context, and per-unit maps that may couple batch rows (batch norm). -/
+theorem made_is_autoreg_conditioner (n : NF.Made.Net) (hv : n.valid = true) (hm : 0 < n.m) (W : ℕ → ℕ → ℕ → ℝ) (bias : ℕ → ℕ → ℝ)
+    (B : Nat) (ctxv : ℕ → ℕ → Fin B → ℝ) (g : ℕ → NF.Made.Slot → ℕ → (Fin B → ℝ) → Fin B → ℝ) :
+    NF.ARWhole.AutoregNet B n.F n.m (NF.ARWhole.madeNet n W bias B ctxv g) :=
+  NF.ARWhole.madeNet_autoreg n hv hm W bias B ctxv g
 
 end Properties.C06
